@@ -122,9 +122,13 @@ impl Vocoder {
                     .map(|(cc, c)| (cc - c) / self.fperiod as f64)
                     .collect();
 
+                #[cfg(feature = "verif-hooks")]
+                crate::verif::point("vocoder.frame");
                 self.excitation.start(p, self.fperiod);
 
                 (0..self.fperiod).for_each(|i| {
+                    #[cfg(feature = "verif-hooks")]
+                    crate::verif::point("vocoder.sample");
                     let mut x = self.excitation.get(lpf);
                     if x != 0.0 {
                         x *= coefficients[0].exp();
@@ -133,6 +137,8 @@ impl Vocoder {
                     for i in 0..coefficients.len() {
                         coefficients[i] += cinc[i];
                     }
+                    #[cfg(feature = "verif-hooks")]
+                    crate::verif::point("vocoder.filtered");
                     rawdata[i] = x * self.volume;
                 });
 
@@ -159,15 +165,21 @@ impl Vocoder {
                     .map(|(cc, c)| (cc - c) / self.fperiod as f64)
                     .collect();
 
+                #[cfg(feature = "verif-hooks")]
+                crate::verif::point("vocoder.frame");
                 self.excitation.start(p, self.fperiod);
 
                 (0..self.fperiod).for_each(|i| {
+                    #[cfg(feature = "verif-hooks")]
+                    crate::verif::point("vocoder.sample");
                     let mut x = self.excitation.get(lpf);
                     x *= coefficients[0];
                     filter.df(&mut x, self.alpha, coefficients);
                     for i in 0..coefficients.len() {
                         coefficients[i] += cinc[i];
                     }
+                    #[cfg(feature = "verif-hooks")]
+                    crate::verif::point("vocoder.filtered");
                     rawdata[i] = x * self.volume;
                 });
 
